@@ -1,4 +1,5 @@
 import EpgVerif.Props.C04
+import EpgVerif.Tie.ShiftSites
 open EpgVerif.Props.C04
 #print axioms get_point
 #print axioms get_shift
@@ -12,3 +13,4 @@ open EpgVerif.Props.C04
 #print axioms position_is_bloch
 #print axioms backend_shift_agree
 #print axioms backend_matrix_agree
+#print axioms EpgVerif.Tie.ShiftSites.sites_as_modelled
